@@ -99,6 +99,21 @@ class Template:
         return seg[0][2] if (len(seg) == 1 and seg[0][0] == "ph") else None
 
 
+_WRITTEN = {}
+
+
+def written_sid_conf():
+    """The names of the Sid configuration module as its file defines them (not as the loader left them)."""
+    if not _WRITTEN:
+        try:
+            import runpy
+            import spil_sid_conf
+            _WRITTEN.update(runpy.run_path(spil_sid_conf.__file__))
+        except Exception:
+            _WRITTEN["__failed__"] = True
+    return _WRITTEN
+
+
 class SidModel:
     """R1 + R2 over conf.sid_templates (after extrapolation and pattern replacing)."""
 
@@ -108,9 +123,12 @@ class SidModel:
         self.by_name = {t.name: t for t in self.templates}
         self.sep = conf.sidtype_keytype_sep
         self.search_symbols = list(conf.search_symbols)
-        self.leaf_keys = dict(conf.leaf_keys)
-        self.alias = {k: list(v) for k, v in conf.extension_alias.items()}
-        self.narrow = dict(conf.basetyped_search_narrowing)
+        # the tables the loader only hands through are read from the configuration AS WRITTEN (the module's file executed again in
+        # a namespace of its own), so that a loader that edits them does not take the oracle along
+        written = written_sid_conf()
+        self.leaf_keys = dict(written.get("leaf_keys", conf.leaf_keys))
+        self.alias = {k: list(v) for k, v in written.get("extension_alias", conf.extension_alias).items()}
+        self.narrow = dict(written.get("basetyped_search_narrowing", conf.basetyped_search_narrowing))
         self.max_len = max(t.nseg for t in self.templates)
 
     # R1
